@@ -10,7 +10,7 @@
                         are queued; C05_wouldblock_witness shows what happens otherwise);
      resumed st         the state in which Resume's accept_all runs: paused := false, every listener registered. *)
 From Coq Require Import List ZArith NArith Bool.
-From AN Require Import Model.Srv Proofs.SrvInv Proofs.SrvPause Proofs.SrvPauseB.
+From AN Require Import Model.Srv Proofs.SrvInv Proofs.SrvPause Proofs.SrvPauseB Proofs.SrvFault Proofs.SrvStrand.
 Import ListNotations.
 
 (* 1. Once a pause has taken effect no connection is dispatched until resume — in EVERY run (any script of
@@ -232,6 +232,40 @@ Example C05_wouldblock_witness :
   = ([(true, false, None, [1%N], [])], false, true).
 Proof. vm_compute. reflexivity. Qed.
 
+(* Commands take effect in the order they were issued, however many of them are drained by one handle_waker call: from ANY
+   state, after a handle_waker call (no Stop queued, nothing else running) the pause flag is what folding the queued
+   Pause/Resume interests over the old flag gives, the queue is empty — and the last command issued wins whatever came before
+   it (repeated and unmatched commands are idempotent). *)
+Theorem C05_commands_in_order : forall (L : Z) fuel st st' ys',
+  handle_waker L fuel st [] = (st', ys') -> ~ In IStop (wq st) -> err st' = None ->
+  paused st' = final_paused (paused st) (wq st) /\ wq st' = [].
+Proof. exact commands_in_order. Qed.
+
+Theorem C05_last_command_wins : forall p q,
+  final_paused p (q ++ [IPause]) = true /\ final_paused p (q ++ [IResume]) = false.
+Proof. exact last_command_wins. Qed.
+
+(* C05_no_strand without the fault-free hypothesis: EVERY script (worker deaths and replacements included, anything scheduled
+   at the yield point), only the spurious WouldBlock excluded. *)
+Theorem C05_no_strand_all : forall (L : Z) W kinds os,
+  1 <= W <= 512 -> forallb wf_op os = true -> forallb (tok_ok (length kinds)) os = true -> forallb nwb_op os = true ->
+  let st := run L (init W kinds) os in
+  err st = None /\
+  (stopped st = false ->
+   (wq st <> [] -> wpend st = true) /\
+   forall tok l, nth_error (lsts st) tok = Some l ->
+     paused st = false -> available (av st) = true -> l_backlog l <> [] -> l_inject l = [] ->
+       (l_reg l = true /\ l_edge l = true) \/
+       (exists d t, l_to l = Some d /\ (d <= now st + 500)%N /\ ptimeout st = Some t /\ (t <= 510)%N)).
+Proof. exact no_strand_all. Qed.
+
+(* non-vacuity: Pause, Resume, Pause drained by one call on a running loop leave it paused *)
+Example C05_order_example :
+  let st := run 2 (init 1 [false]) [E (Command CPause); E (Command CResume); E (Command CPause)] in
+  let st' := step 2 st (HandleWaker []) in
+  wq st = [IPause; IResume; IPause] /\ paused st = false /\ err st' = None /\ paused st' = true /\ wq st' = [].
+Proof. vm_compute. repeat split. Qed.
+
 Print Assumptions C05_pause_safe.
 Print Assumptions C05_registration.
 Print Assumptions C05_wakeup_in_time.
@@ -243,3 +277,6 @@ Print Assumptions C05_idempotent_pause.
 Print Assumptions C05_idempotent_pause_when_paused.
 Print Assumptions C05_idempotent_resume_unmatched.
 Print Assumptions C05_idempotent_resume.
+Print Assumptions C05_commands_in_order.
+Print Assumptions C05_last_command_wins.
+Print Assumptions C05_no_strand_all.
